@@ -40,7 +40,7 @@ const prelude = `(set-option :produce-models true)
 (declare-fun f64.ofint (Int) F64)
 (declare-fun f64.toint (F64) Int)
 (declare-fun f64.isnan (F64) Bool)
-(assert (forall ((s Str)) (! (and (>= (slen s) 0) (<= (slen s) 1152921504606846976)) :pattern ((slen s)))))
+(assert (forall ((s Str)) (! (and (>= (slen s) 0) (<= (slen s) 2147483648)) :pattern ((slen s)))))
 (assert (forall ((s Str) (i Int)) (! (and (<= 0 (sat s i)) (<= (sat s i) 255)) :pattern ((sat s i)))))
 (assert (forall ((s Str) (i Int) (j Int)) (! (=> (and (<= 0 i) (<= i j) (<= j (slen s))) (= (slen (ssub s i j)) (- j i))) :pattern ((ssub s i j)))))
 (assert (forall ((s Str) (i Int) (j Int) (k Int)) (! (=> (and (<= 0 i) (<= i j) (<= j (slen s)) (<= 0 k) (< k (- j i))) (= (sat (ssub s i j) k) (sat s (+ i k)))) :pattern ((sat (ssub s i j) k)))))
@@ -145,6 +145,22 @@ func (x *Exec) run() {
 		binds = append(binds, x.havocValue(st, "fv."+fv.Name(), fv.Type()))
 	}
 	st.ghost["held"] = VSet{x.emptySetTerm(SInt)}
+	{
+		var names []string
+		for g := range x.C.GhostVars {
+			names = append(names, g)
+		}
+		sort.Strings(names)
+		for _, g := range names {
+			T := x.ghostType(g)
+			ls := leavesOfS(T)
+			ts := make([]Term, len(ls))
+			for i, l := range ls {
+				ts[i] = x.fresh("in."+g+l.Name, l.Sort)
+			}
+			st.ghost[g] = x.unflattenS(T, ts)
+		}
+	}
 	entry := st.clone()
 	x.entry = entry
 	env := &SpecEnv{x: x, st: st, vars: map[string]SVal{}, pkg: x.pkgOf(fn)}
@@ -207,6 +223,42 @@ func (x *Exec) run() {
 func (x *Exec) frameObligations(out, entry *State, penv *SpecEnv) {
 	if x.fc == nil || (len(x.fc.Modifies) == 0 && !x.fc.Flags["pure"] && !x.fc.Flags["framed"]) {
 		return
+	}
+	// ghost variables
+	{
+		eenv0 := *penv
+		eenv0.st = entry
+		eenv0.old = nil
+		gm := x.buildModSet(&eenv0, x.fc.Modifies, false)
+		var names []string
+		for g := range x.C.GhostVars {
+			names = append(names, g)
+		}
+		sort.Strings(names)
+		for _, g := range names {
+			if gm.ghosts[g] || gm.all {
+				continue
+			}
+			exitAssigned := false
+			for _, c := range x.fc.Exits {
+				if c.LHS == nil && c.Name == g {
+					exitAssigned = true
+				}
+			}
+			if exitAssigned {
+				continue
+			}
+			a, b := out.ghost[g], entry.ghost[g]
+			if a == nil || b == nil || sameValue(a, b) {
+				continue
+			}
+			ta, tb := x.flatten(a), x.flatten(b)
+			var eqs []Term
+			for i := range ta {
+				eqs = append(eqs, Eq(ta[i], tb[i]))
+			}
+			x.check(out, "frame", nil, x.fn.Pos(), "ghost "+g+" unchanged", And(eqs...))
+		}
 	}
 	log := newWriteLog()
 	x.collectHeapWrites(out, entry.epoch, log)
@@ -340,13 +392,25 @@ func discharge(res *FuncResult, opts VerifyOpts, sem chan struct{}) {
 			}
 			return
 		}
-		mid := len(obls) / 2
-		wg.Add(2)
-		go solve(obls[:mid])
-		go solve(obls[mid:])
+		// the batch did not go through: every obligation on its own, in parallel
+		for i := range obls {
+			wg.Add(1)
+			go solve(obls[i : i+1])
+		}
+	}
+	// quantified goals are solved on their own: a disjunction of negated quantified goals is much harder
+	// than its parts; quantifier-free goals (the bulk of the safety obligations) go as one batch first
+	var qf []*Obligation
+	for _, o := range pending {
+		if hasQuant(o.Goal) {
+			wg.Add(1)
+			go solve([]*Obligation{o})
+		} else {
+			qf = append(qf, o)
+		}
 	}
 	wg.Add(1)
-	go solve(pending)
+	go solve(qf)
 	// cover obligations: must be satisfiable
 	for _, o := range res.Obls {
 		if o.Kind != "cover" {
